@@ -4,7 +4,7 @@
    get_inwards_mask / fix_trimesh_orientation on index triples, tied to /repo by the exact
    correspondence of every run); notions: Model/MeshSpec.v. *)
 From Coq Require Import NArith List Bool Arith Permutation.
-From MV Require Import Model.MeshModel Model.MeshSpec Proofs.MeshOpenProofs.
+From MV Require Import Model.MeshModel Model.MeshSpec Model.MeshExec Proofs.MeshOpenProofs.
 Import ListNotations.
 
 (* ---------------------------------------------------------------- check_open *)
@@ -122,3 +122,18 @@ Theorem C16_propagation_consistent_partial : forall m, In m (masks 4) ->
   list_eqb_face (fix_trimesh_orientation fs [true]) (map flip_face (fix_trimesh_orientation fs [false])) = true.
 Proof. exact tet_orientation_bounded. Qed.
 Print Assumptions C16_propagation_consistent_partial.
+
+(* PARTIAL (the local step of the propagation, for all faces and all free-edge sets): when a face is attached to
+   the processed region, the edge set xor-ed into free_edges is the set of directed edges of the face as it will
+   be wound (reversed iff `flip`), and that winding traverses a free edge in the OPPOSITE direction; a skipped
+   face has no edge in common with free_edges in either direction.  The global statement (every shared edge of a
+   closed edge-manifold component ends up traversed in opposite directions) is not proved. *)
+Theorem C16_propagation_step_partial : forall free tri, free <> [] ->
+  match try_tri free tri with
+  | Some (fl, es) =>
+      let t' := if fl then flip_face tri else tri in
+      (forall e, In e es <-> In e (edges_of t')) /\ (exists e, In e free /\ In (rev_e e) (edges_of t'))
+  | None => forall e, In e free -> ~ In e (edges_of tri) /\ ~ In (rev_e e) (edges_of tri)
+  end.
+Proof. exact try_tri_local. Qed.
+Print Assumptions C16_propagation_step_partial.
